@@ -48,6 +48,7 @@ type FuncContract struct {
 	Results  []string          // names for unnamed results (r0, r1 default)
 	Unroll   map[int]int
 	Reach    []*ReachClause
+	Sends    []*Clause // condition every value sent on a channel must satisfy (over `sent`)
 	used     bool
 }
 
@@ -102,7 +103,7 @@ var clauseKeywords = map[string]bool{
 	"func": true, "spec": true, "ghost": true, "lemma": true, "axiom": true,
 	"requires": true, "ensures": true, "loop": true, "callback": true, "nopanic": true,
 	"assigns": true, "effects": true, "calls": true, "pure": true,
-	"trusted": true, "inline": true, "reach": true, "opaque": true, "crash_invariant": true, "results": true,
+	"trusted": true, "inline": true, "reach": true, "sends": true, "opaque": true, "crash_invariant": true, "results": true,
 }
 
 var tagRe = regexp.MustCompile(`^([a-z_]+)\[([A-Za-z0-9_,\- ]+)\]`)
@@ -219,7 +220,7 @@ func parseContractFile(path, pkgPath string) (*ContractFile, error) {
 				cf.Axioms = append(cf.Axioms, c)
 			}
 			cur = nil
-		case "requires", "ensures", "crash_invariant":
+		case "requires", "ensures", "crash_invariant", "sends":
 			if err := needCur(); err != nil {
 				return nil, err
 			}
@@ -228,6 +229,8 @@ func parseContractFile(path, pkgPath string) (*ContractFile, error) {
 				return nil, err
 			}
 			switch w {
+			case "sends":
+				cur.Sends = append(cur.Sends, c)
 			case "requires":
 				cur.Requires = append(cur.Requires, c)
 			case "ensures":
